@@ -614,6 +614,34 @@ pub fn on_epoch(w: &mut World, p: usize, g: usize, how: &str) -> VResult<()> {
     let mut psk = vec![0u8; alg.len()];
     let mut psk_known = no_psk_in_model;
     if let Some(fw) = &fw {
+        // RFC 9420 §8.4 / §12.4.3.1: the PSK list follows the order of the PSK proposals in the commit. For commits
+        // whose PSKs were all given by value the simulator knows that order (externals as listed, then resumptions)
+        let byref_psk = msg
+            .refs
+            .iter()
+            .any(|r| !w.msgs[r].ext_psks.is_empty() || !w.msgs[r].res_psks.is_empty());
+        if !byref_psk && msg.spec.is_some() {
+            let mut want: Vec<(Option<Vec<u8>>, Option<u64>)> = msg.ext_psks.iter().map(|i| (Some(vec![b'k', *i]), None)).collect();
+            want.extend(msg.res_psks.iter().map(|e| (None, Some(*e))));
+            let got: Vec<(Option<Vec<u8>>, Option<u64>)> = fw
+                .psks
+                .iter()
+                .map(|p| (p.external_id.clone(), p.resumption.as_ref().map(|r| r.2)))
+                .collect();
+            w.stats.check("psk-order-follows-commit");
+            if want != got {
+                return Err(viol(
+                    w,
+                    "psk-order",
+                    "psk-list-order-differs-from-commit".into(),
+                    format!(
+                        "commit {cid}: the PSK ids in the Welcome's GroupSecrets ({} entries) are not in the order of the commit's PSK proposals ({} entries)",
+                        got.len(),
+                        want.len()
+                    ),
+                ));
+            }
+        }
         let mut vals = vec![];
         let mut ok = true;
         for id in &fw.psks {
